@@ -37,6 +37,19 @@ func propOracles(e *env, op *Op, out *Outcome, i int) {
 func hasPanickingWriter(op *Op) bool {
 	s := &sites{}
 	s.walkOp(op)
+	// a panic payload whose own printing panics propagates
+	for _, sl := range s.steps {
+		for i := range *sl {
+			st := &(*sl)[i]
+			if st.A == "pa" && len(st.V) > 0 {
+				for j := range st.V[0].P {
+					if st.V[0].P[j].A == "pa" {
+						return true
+					}
+				}
+			}
+		}
+	}
 	for _, o := range s.ops {
 		if o.W != nil && o.W.Kind == "panic" {
 			return true
